@@ -234,6 +234,7 @@ var namedAssumptions = []string{
 func cmdCheck(args []string) int {
 	prop, tier, repo, verifDir := "", "quick", "/repo", "/verif"
 	only := ""
+	knownFile := ""
 	for i := 0; i < len(args); i++ {
 		switch args[i] {
 		case "-prop":
@@ -251,6 +252,9 @@ func cmdCheck(args []string) int {
 		case "-pkg":
 			i++
 			only = args[i]
+		case "-known":
+			i++
+			knownFile = args[i]
 		}
 	}
 	if prop == "" {
@@ -270,7 +274,10 @@ func cmdCheck(args []string) int {
 		cfg = RunConfig{TimeoutMs: 120000, Workers: 8, All: true}
 	}
 	oc := runProperty(w, prop, cfg, only)
-	known, fixed := loadKnown(filepath.Join(verifDir, "known_findings.txt"))
+	if knownFile == "" {
+		knownFile = filepath.Join(verifDir, "known_findings.txt")
+	}
+	known, fixed := loadKnown(knownFile)
 	violations := 0
 	proved := 0
 	var knownHit []string
@@ -402,7 +409,24 @@ func cmdCheck(args []string) int {
 	return exit
 }
 
-var propertyExplanation = map[string]string{}
+var propertyExplanation = map[string]string{
+	"C01": "Agreement, modular: decision-certificate obligations at the ProcessBlock call (>= M distinct current-view commits verified against exactly the accepted block), quorum arithmetic (2M-N >= F+1 for all N), ledger position / validator list read only at re-initialisation; cross-node counting step is the textbook quorum-intersection argument (stated, not mechanised).",
+	"C02": "Decision certificate at the ProcessBlock / ProcessPreBlock call sites plus the invariants VERC, PROP and tip preserved by every function; block content obligations at SetTransactions and NewBlockFromContext.",
+	"C03": "Ghost variables for what the node has said; monitor preconditions on broadcast (single caller of the Broadcast callback); commit lock as two-state clause of every function; linking invariant SAID.",
+	"C04": "Preconditions of sendPrepareResponse, sendCommit, sendPreCommit and initializeConsensus(view>0) written from the statement; counting loops proved against count(); PREP invariant.",
+	"C05": "Single guarded ProcessBlock call site, quiescence frames of the API under a decided height, full post-condition of reset, cache purge with a loop contract.",
+	"C06": "Functional post-conditions of N/F/M/GetPrimaryIndex and arithmetic lemmas for all N in 1..65535, all heights, all views.",
+	"C07": "Mode-split preconditions of the commit / pre-commit senders, single guarded ProcessPreBlock call site, header creation and signing only after the pre-block, functional contract of isAntiMEVExtensionEnabled.",
+	"C10": "Ghost timer updated by the contract of Timer.Reset; timerOK at API exits (two-state umbrella clause), re-arm clause of onTimeout, non-negative durations under A-VIEW.",
+	"C11": "Every run-time check site reachable from the API is an obligation (no-panic sweep); well-formedness invariants; one frame clause per class of inadmissible or repeated input.",
+	"C12": "If OnTransaction stored the transaction, the view is unchanged, all transactions are held and the node is an active backup, then the call broadcast an answer; transactions are kept within a view.",
+	"C13": "broadcast requires a validator index and a cleared watch-only flag; propagated through every sender; the sent-predicates have functional contracts as watch-only filters.",
+	"C14": "Frame part only: no wall-clock function of package time is called anywhere in package dbft (syntactic table) and an obligation fails at any such call met by the symbolic executor; plus the shift lemma for the proposal timestamp formula.",
+	"C15": "Functional post-conditions of Fill and getTimestamp, argument obligation at NewPrepareRequest, writers table for the proposal fields, the timestamp base is fixed within a height.",
+	"C16": "PARTIAL: per-call mechanism clauses of the dynamic block time extension; network-time spacing is not decided.",
+	"C17": "PARTIAL: typestate assertion on the example's event loop (never waits with a decided instance) against assumed API contracts.",
+	"C18": "Data invariant of timer.Timer over a ghost model of clock, channel and time.Timer deadlines; scheduling tolerance not decided.",
+}
 
 // ReplayResult describes an attempt to run a counterexample against the real code.
 type ReplayResult struct {
